@@ -100,7 +100,7 @@ Definition swif_base : N := 100.
 Inductive tok :=
 | TA (i sw : N) | TAF (i : N) | TU (i : N) | TV (i : N)
 | T4 (i : N) (a : N) | T6 (i : N) (a : N) | TP (i : N) (a : N)
-| TR (i cause : N) | TL (i : N) | TDEL (i : N) | TSP (i : N) | TSD (i : N).
+| TR (i cause : N) | TL (i : N) | TDEL (i : N) | TSP (i : N) | TSD (i : N) | TSPF (i : N) | TCKSERR.
 
 (* ---- state ---- *)
 Record st := {
@@ -113,11 +113,12 @@ Record st := {
   dp : list (N * dpe);
   dpnext : N;
   released : list N;                (* ghost: sessions released so far *)
-  used : list N }.                  (* ghost: session identities ever created (identities are never reused) *)
+  used : list N;                    (* ghost: session identities ever created (identities are never reused) *)
+  poison : list (N * bool) }.       (* fault plan: ticket -> its Put returns a transient Store error (true: every attempt) *)
 
 Definition init : st :=
   {| store := []; pend := []; tick := 0; applied := []; live := []; leases := []; dp := [];
-     dpnext := swif_base; released := []; used := [] |}.
+     dpnext := swif_base; released := []; used := []; poison := [] |}.
 
 (* ---- allocator ---- *)
 (* Registry.Reserve*: only a pool that contains the address records it; a lease held by another owner is a
@@ -188,16 +189,21 @@ Inductive op :=
 | Ck (i : N)                                  (* checkpointSession: asynchronous Put *)
 | Cks (i : N)                                 (* checkpointSessionSync *)
 | Rel (i : N)                                 (* handleSubscriberTerminate *)
-| Done (t : N)                                (* the asynchronous Put with ticket t completes *)
+| Done (t : N) (retried : bool)               (* the asynchronous Put with ticket t completes; retried = observation:
+                                                 after a Store error the implementation repeated the write
+                                                 (admissible only in the write's original slot, so the ticket
+                                                 simply stays pending) *)
+| Poison (t : N) (always : bool)              (* fault plan: the Put with ticket t will return a Store error *)
+| CksF (i : N)                                (* checkpointSessionSync whose Store.Put returns an error *)
 | Crash (preserved : bool) (fail : option N) (now : Z).   (* stop; new incarnation restores from the store *)
 
 Inductive out :=
 | ONew (a4 a6 apd : option N) (x4 x6 xpd : bool)   (* x* : that pool was asked and is exhausted *)
-| OSkip | OCk (t : N) (lg : list tok) | OCks (t : N) (lg : list tok) | ORel (lg : list tok) | ODone
+| OSkip | OCk (t : N) (lg : list tok) | OCks (t : N) (lg : list tok) | ORel (lg : list tok) | ODone (retry : bool)
 | OCrash (lg : list tok).
 
 Definition upd_store s v := {| store := v; pend := pend s; tick := tick s; applied := applied s; live := live s;
-  leases := leases s; dp := dp s; dpnext := dpnext s; released := released s; used := used s |}.
+  leases := leases s; dp := dp s; dpnext := dpnext s; released := released s; used := used s; poison := poison s |}.
 
 Definition is_some {A} (o : option A) : bool := match o with Some _ => true | None => false end.
 Definition is_alloc (a : aspec) : bool := match a with AAlloc => true | _ => false end.
@@ -225,7 +231,7 @@ Definition do_new (c : cfg) (s : st) (n : newspec) (o4 o6 opd : option N) : opti
           else (r0, dp s, dpnext s) in
         Some ({| store := store s; pend := pend s; tick := tick s; applied := applied s;
                  live := aput (n_id n) r (live s); leases := l3; dp := d; dpnext := nx;
-                 released := released s; used := n_id n :: used s |},
+                 released := released s; used := n_id n :: used s; poison := poison s |},
               ONew a4 a6 apd (is_alloc (n_a4 n) && negb (is_some a4)) (is_alloc (n_a6 n) && negb (is_some a6))
                    (is_alloc (n_apd n) && negb (is_some apd)))
       end
@@ -240,7 +246,7 @@ Definition do_ck (s : st) (i : N) : st * out :=
     let r' := set_stamp r t in
     ({| store := store s; pend := pend s ++ [(t, r')]; tick := t + 1; applied := applied s;
         live := aput i r' (live s); leases := leases s; dp := dp s; dpnext := dpnext s;
-        released := released s; used := used s |}, OCk t [])
+        released := released s; used := used s; poison := poison s |}, OCk t [])
   end.
 
 Definition do_cks (s : st) (i : N) : st * out :=
@@ -251,7 +257,7 @@ Definition do_cks (s : st) (i : N) : st * out :=
     let r' := set_stamp r t in
     ({| store := aput i r' (store s); pend := pend s; tick := t + 1; applied := aput i t (applied s);
         live := aput i r' (live s); leases := leases s; dp := dp s; dpnext := dpnext s;
-        released := released s; used := used s |}, OCks t [TSP i])
+        released := released s; used := used s; poison := poison s |}, OCks t [TSP i])
   end.
 
 Definition do_rel (s : st) (i : N) : st * out :=
@@ -263,7 +269,7 @@ Definition do_rel (s : st) (i : N) : st * out :=
     ({| store := aremove i (store s); pend := pend s; tick := t + 1; applied := aput i t (applied s);
         live := aremove i (live s); leases := release_all (leases s) (addrs r);
         dp := if hasdp then aremove i (dp s) else dp s; dpnext := dpnext s;
-        released := i :: released s; used := used s |},
+        released := i :: released s; used := used s; poison := poison s |},
      ORel ((if hasdp then [TDEL i] else []) ++ [TSD i; TL i]))
   end.
 
@@ -271,19 +277,65 @@ Definition do_rel (s : st) (i : N) : st * out :=
 Definition effective (c : cfg) (s : st) (i t : N) : bool :=
   if c_ordered c then match aget i (applied s) with Some a => a <? t | None => true end else true.
 
-Definition do_done (c : cfg) (s : st) (t : N) : st * out :=
+Definition set_pend_poison (s : st) (pd : list (N * sess)) (po : list (N * bool)) : st :=
+  {| store := store s; pend := pd; tick := tick s; applied := applied s; live := live s; leases := leases s;
+     dp := dp s; dpnext := dpnext s; released := released s; used := used s; poison := po |}.
+
+Definition do_done_core (c : cfg) (s : st) (t : N) (retried : bool) : st * out :=
   match aget t (pend s) with
-  | None => (s, ODone)
+  | None => (s, ODone false)
   | Some r =>
-    let i := s_id r in
-    if effective c s i t then
-      ({| store := aput i r (store s); pend := aremove t (pend s); tick := tick s;
-          applied := aput i t (applied s); live := live s; leases := leases s; dp := dp s;
-          dpnext := dpnext s; released := released s; used := used s |}, ODone)
-    else
-      ({| store := store s; pend := aremove t (pend s); tick := tick s; applied := applied s;
-          live := live s; leases := leases s; dp := dp s; dpnext := dpnext s; released := released s;
-          used := used s |}, ODone)
+    match aget t (poison s) with
+    | Some always =>
+      (* the Store returns an error: nothing is written; the write is dropped, or repeated in its own slot *)
+      if retried then (set_pend_poison s (pend s) (if always then poison s else aremove t (poison s)), ODone true)
+      else (set_pend_poison s (aremove t (pend s)) (aremove t (poison s)), ODone false)
+    | None =>
+      let i := s_id r in
+      if effective c s i t then
+        ({| store := aput i r (store s); pend := aremove t (pend s); tick := tick s;
+            applied := aput i t (applied s); live := live s; leases := leases s; dp := dp s;
+            dpnext := dpnext s; released := released s; used := used s; poison := poison s |}, ODone false)
+      else
+        ({| store := store s; pend := aremove t (pend s); tick := tick s; applied := applied s;
+            live := live s; leases := leases s; dp := dp s; dpnext := dpnext s; released := released s;
+            used := used s; poison := poison s |}, ODone false)
+    end
+  end.
+
+Definition do_poison (s : st) (t : N) (always : bool) : st * out :=
+  match aget t (pend s) with
+  | None => (s, OSkip)
+  | Some _ => (set_pend_poison s (pend s) (aput t always (poison s)), ODone false)
+  end.
+
+(* an ordered write reaches the Store only after every earlier-issued write of the same session has finished:
+   under the harness' schedule those Puts are let through (applied, or failed by the fault plan) in issue order *)
+Definition flush (c : cfg) (s : st) (i bound : N) : st :=
+  fold_left (fun s0 t => fst (do_done_core c s0 t false))
+            (map fst (filter (fun tr => (s_id (snd tr) =? i) && (fst tr <? bound)) (pend s))) s.
+
+(* Done t.  Whether the write succeeds is only visible when it is at the Store, i.e. after the earlier writes of its
+   session: for a write that fails (fault plan) those earlier ones have taken effect first.  (For a write that
+   succeeds the order is immaterial: it supersedes them.) *)
+Definition do_done (c : cfg) (s : st) (t : N) (retried : bool) : st * out :=
+  match aget t (pend s), aget t (poison s) with
+  | Some r, Some _ => do_done_core c (if c_ordered c then flush c s (s_id r) t else s) t retried
+  | _, _ => do_done_core c s t retried
+  end.
+
+(* the synchronous checkpoint's Put fails: the in-memory stamp moves on, the ticket is spent, the store is not
+   touched by this write *)
+Definition do_cksf (c : cfg) (s : st) (i : N) : st * out :=
+  match aget i (live s) with
+  | None => (s, OSkip)
+  | Some r =>
+    let s1 := if c_ordered c then flush c s i (tick s) else s in
+    let t := tick s1 in
+    let r' := set_stamp r t in
+    ({| store := store s1; pend := pend s1; tick := t + 1; applied := applied s1;
+        live := aput i r' (live s1); leases := leases s1; dp := dp s1; dpnext := dpnext s1;
+        released := released s1; used := used s1; poison := poison s1 |}, OCks t [TSPF i; TCKSERR])
   end.
 
 (* ---- restore ---- *)
@@ -320,7 +372,7 @@ Definition install (c : cfg) (s : st) (k : N) (r : sess) : st :=
   let res := match c_proto c with IPoE => true | PPPoE => c_reserve c end in
   {| store := store s; pend := pend s; tick := tick s; applied := applied s; live := aput k r (live s);
      leases := if res then reserve_all c k (leases s) (addrs r) else leases s;
-     dp := dp s; dpnext := dpnext s; released := released s; used := used s |}.
+     dp := dp s; dpnext := dpnext s; released := released s; used := used s; poison := poison s |}.
 
 Definition restore_one (c : cfg) (now : Z) (fail : option N) (cause : N) (store0 : list (N * sess))
            (acc : st * list tok) (k : N) : st * list tok :=
@@ -344,7 +396,7 @@ Definition restore_one (c : cfg) (now : Z) (fail : option N) (cause : N) (store0
             let t := tick s1 in
             ({| store := store s1; pend := pend s1 ++ [(t, r')]; tick := t + 1; applied := applied s1;
                 live := aput k r' (live s1); leases := leases s1; dp := dp_prog k r d1; dpnext := nx1;
-                released := released s1; used := used s1 |},
+                released := released s1; used := used s1; poison := poison s1 |},
              lg ++ prog_log c k sw r ++ [TR k cause])
         else (s1, lg)
   end.
@@ -354,7 +406,7 @@ Definition do_crash (c : cfg) (s : st) (preserved : bool) (fail : option N) (now
   let nx := if preserved then dpnext s else swif_base in
   let cause := match d with [] => 1 | _ => 0 end in      (* 0 osvbngd_restart, 1 vpp_recovery *)
   let s0 := {| store := store s; pend := []; tick := tick s; applied := applied s; live := [];
-               leases := []; dp := d; dpnext := nx; released := released s; used := used s |} in
+               leases := []; dp := d; dpnext := nx; released := released s; used := used s; poison := [] |} in
   let '(s1, lg) := fold_left (restore_one c now fail cause (store s)) (isort (map fst (store s))) (s0, []) in
   (s1, OCrash lg).
 
@@ -364,7 +416,9 @@ Definition step (c : cfg) (s : st) (o : op) : option (st * out) :=
   | Ck i => Some (do_ck s i)
   | Cks i => Some (do_cks s i)
   | Rel i => Some (do_rel s i)
-  | Done t => Some (do_done c s t)
+  | Done t rt => Some (do_done c s t rt)
+  | Poison t al => Some (do_poison s t al)
+  | CksF i => Some (do_cksf c s i)
   | Crash p f now => Some (do_crash c s p f now)
   end.
 
